@@ -17,6 +17,8 @@ backend: sat
 loops: 1
 timeout: 600
 mem: 14
+native: mem
+native_includes: mem.c
 */
 /*@unit
 name: table.add_var.shape
@@ -27,6 +29,8 @@ enforce: memrec_add_var
 backend: sat
 timeout: 600
 mem: 14
+native: mem
+native_includes: mem.c
 */
 /*@unit
 name: table.add_var.records
@@ -37,6 +41,8 @@ enforce: memrec_add_var
 backend: sat
 timeout: 600
 mem: 14
+native: mem
+native_includes: mem.c
 */
 /*@unit
 name: table.add_var.nodup
@@ -47,6 +53,8 @@ enforce: memrec_add_var
 backend: sat
 timeout: 600
 mem: 14
+native: mem
+native_includes: mem.c
 */
 /*@unit
 name: table.rem_var.cnt0
@@ -59,6 +67,8 @@ tier: B
 bound: table of exactly 0 records (cnt <= 5 over the units rem_var.cnt0..cnt5); pointer, contents and ghost indices symbolic
 unwind: 8
 timeout: 280
+native: mem
+native_includes: mem.c
 */
 /*@unit
 name: table.rem_var.cnt1
@@ -71,6 +81,8 @@ tier: B
 bound: table of exactly 1 records (cnt <= 5 over the units rem_var.cnt0..cnt5); pointer, contents and ghost indices symbolic
 unwind: 8
 timeout: 280
+native: mem
+native_includes: mem.c
 */
 /*@unit
 name: table.rem_var.cnt2
@@ -83,6 +95,8 @@ tier: B
 bound: table of exactly 2 records (cnt <= 5 over the units rem_var.cnt0..cnt5); pointer, contents and ghost indices symbolic
 unwind: 8
 timeout: 280
+native: mem
+native_includes: mem.c
 */
 /*@unit
 name: table.rem_var.cnt3
@@ -95,6 +109,8 @@ tier: B
 bound: table of exactly 3 records (cnt <= 5 over the units rem_var.cnt0..cnt5); pointer, contents and ghost indices symbolic
 unwind: 8
 timeout: 280
+native: mem
+native_includes: mem.c
 */
 /*@unit
 name: table.rem_var.cnt4
@@ -108,6 +124,8 @@ tier: B
 bound: table of exactly 4 records (cnt <= 5 over the units rem_var.cnt0..cnt5); pointer, contents and ghost indices symbolic
 unwind: 8
 timeout: 280
+native: mem
+native_includes: mem.c
 */
 /*@unit
 name: table.rem_var.cnt5
@@ -121,6 +139,8 @@ tier: B
 bound: table of exactly 5 records (cnt <= 5 over the units rem_var.cnt0..cnt5); pointer, contents and ghost indices symbolic
 unwind: 8
 timeout: 280
+native: mem
+native_includes: mem.c
 */
 /*@unit
 name: table.chg_var.shape
@@ -132,6 +152,8 @@ backend: sat
 loops: 1
 timeout: 600
 mem: 14
+native: mem
+native_includes: mem.c
 */
 /*@unit
 name: table.chg_var.records
@@ -143,6 +165,8 @@ backend: sat
 loops: 1
 timeout: 600
 mem: 14
+native: mem
+native_includes: mem.c
 */
 /*@unit
 name: table.chg_var.nodup
@@ -154,6 +178,8 @@ backend: sat
 loops: 1
 timeout: 600
 mem: 14
+native: mem
+native_includes: mem.c
 */
 #include "vprelude.h"
 #include "env_memhash.h"
